@@ -102,6 +102,7 @@ func (w *world) ruleRef(a *agg, stats *counters) {
 	P := w.c.P
 	tables := w.tables()
 	rg := newRanger(w)
+	lists := w.indexListFields()
 	if len(tables) < 3 {
 		w.c.R.Failf("vacuity: only %d dedup tracker fields (named map/slice types) found on Writer, expected ≥ 3", len(tables))
 	}
@@ -110,7 +111,7 @@ func (w *world) ruleRef(a *agg, stats *counters) {
 			continue
 		}
 		// cheap pre-filter: the function (not its callees) takes len() of a Writer slice field
-		if !w.readsLenOfWriterField(fn) {
+		if !w.readsLenOfWriterField(fn) && (w.scan[fn] == nil || len(w.scan[fn].stores) == 0) {
 			continue
 		}
 		fname := P.FuncName(fn)
@@ -186,6 +187,7 @@ func (w *world) ruleRef(a *agg, stats *counters) {
 			}
 			w.collectKeyShapes(x, r, tables, &shapes)
 			w.checkEmittedIndices(a, rg, x, r, fname)
+			w.checkIndexProvenance(a, rg, x, r, fname, lists)
 			var caps []capture
 			add := func(av AV, rule, sink string, in ssa.Instruction) {
 				walkNums(st, av, 0, func(p Poly) {
@@ -418,6 +420,7 @@ func (w *world) ruleRef(a *agg, stats *counters) {
 	w.c.R.Floor("REF-1", 15)
 	w.c.R.Floor("DEDUP-1", 9)
 	w.c.R.Floor("DEDUP-2", 2)
+	w.c.R.Floor("REF-2", 8)
 }
 
 func (w *world) readsLenOfWriterField(fn *ssa.Function) bool {
